@@ -26,6 +26,7 @@ pub struct SourceState {
     pub written: Vec<u8>,     // everything the code under test wrote
     pub events: Vec<Value>,
     pub log_bytes_upto: usize,
+    pub wchunk: usize,        // bytes accepted per poll_write (0 = all): a sink that takes writes in parts
 }
 
 #[derive(Clone, Default)]
@@ -68,8 +69,9 @@ impl AsyncRead for ScriptSource {
 impl AsyncWrite for ScriptSource {
     fn poll_write(self: Pin<&mut Self>, _: &mut Context<'_>, buf: &[u8]) -> Poll<std::io::Result<usize>> {
         let mut s = self.0.lock().unwrap();
-        s.written.extend_from_slice(buf);
-        Poll::Ready(Ok(buf.len()))
+        let n = if s.wchunk > 0 { buf.len().min(s.wchunk) } else { buf.len() };
+        s.written.extend_from_slice(&buf[..n]);
+        Poll::Ready(Ok(n))
     }
     fn poll_flush(self: Pin<&mut Self>, _: &mut Context<'_>) -> Poll<std::io::Result<()>> {
         Poll::Ready(Ok(()))
@@ -133,6 +135,8 @@ fn write_packets(lens: &[usize]) -> Vec<Vec<u8>> {
     let mut out = vec![];
     for (j, n) in lens.iter().enumerate() {
         let src = ScriptSource::default();
+        // every other packet goes into a sink that accepts 1, 2 or 7 bytes per write
+        src.0.lock().unwrap().wchunk = [0usize, 1, 0, 2, 0, 7][j % 6];
         let mut pt = PacketTransport { source: src.clone() };
         let r = rt.block_on(guarded_async(write_len(&mut pt, j + 1, *n)));
         let _ = r;
